@@ -228,12 +228,29 @@ def d6(ck: Check) -> None:
     if len(prod) != 1 or not (prod[0].iter.args and isinstance(prod[0].iter.args[0], ast.Starred)):
         probs.append("successions are not the product of the motif lists")
     else:
-        apps = [n for n in ast.walk(prod[0]) if isinstance(n, ast.Call) and isinstance(n.func, ast.Attribute) and n.func.attr == "append"
-                and text(n.func.value) == "successions"]
-        if len(apps) != 1:
-            probs.append("a succession is not appended exactly once")
-        for x in ast.walk(prod[0]):
-            if isinstance(x, (ast.Break, ast.Continue, ast.Return)) or (isinstance(x, ast.Delete)):
+        pr = prod[0]
+        res = None
+        for r in own_walk(f.node):
+            if isinstance(r, ast.Return) and isinstance(r.value, ast.Name):
+                res = r.value.id
+        apps = [fm.cfgn(n) for n in ast.walk(pr) if isinstance(n, ast.Call) and isinstance(n.func, ast.Attribute) and n.func.attr == "append"
+                and text(n.func.value) == res]
+        from .c13 import _within, _tbranch
+        from .common import paths_imply
+        hdr = fm.cfg.loop_header[pr]
+        if not apps:
+            probs.append("successions are not appended to the result")
+        else:
+            # every iteration that does not append is one where skip_feedforward_successions is on
+            why = paths_imply(fm, _tbranch(fm, pr), hdr, logic.B("T:skip_feedforward_successions"), None,
+                              stop={a.id for a in apps}, canon=True)
+            if why is not None:
+                probs.append(f"a succession is dropped although skip_feedforward_successions is off: {why}")
+            for a in apps:
+                if _within(fm, pr, a, set()) & {b.id for b in apps}:
+                    probs.append("a succession can be appended twice")
+        for x in ast.walk(pr):
+            if isinstance(x, (ast.Break, ast.Return)) or (isinstance(x, ast.Delete)):
                 pc = fm.pc(fm.cfgn(x))
                 if not logic.implies(pc, logic.B("T:skip_feedforward_successions")):
                     probs.append(f"line {x.lineno}: `{text(x)[:40]}` drops successions although skip_feedforward_successions is off")
